@@ -79,7 +79,7 @@ func genC15(r *vh.Rand, idx int) c15Spec {
 	s := c15Spec{Status: 401, Mode: "single", TimeoutMs: 30000}
 	s.Server = []string{"https://mcp.example/mcp", "https://mcp.example/mcp", "https://mcp.example", "https://mcp.example/a/b", "https://mcp.example:8443/mcp",
 		"http://localhost:8931/mcp", "http://127.0.0.1:8931/mcp", "http://[::1]:8931/mcp", "http://mcp.example/mcp", "http://localhost.evil.example/mcp", "http://127.0.0.1.evil.example:8931/mcp"}[r.Intn(11)]
-	s.Challenge = []string{"none", "rm", "rm", "rm", "rm-scope", "rm-quoted-comma", "two-headers", "two-in-one", "rm-http", "rm-script", "rm-loopback", "malformed", "scope-only", "rm-unquoted"}[r.Intn(14)]
+	s.Challenge = []string{"none", "rm", "rm", "rm", "rm-scope", "rm-quoted-comma", "two-headers", "two-in-one", "rm-http", "rm-script", "rm-loopback", "malformed", "scope-only", "rm-unquoted", "decoy-quoted", "decoy-only", "decoy-escaped", "rm-second-challenge"}[r.Intn(18)]
 	if r.Chance(1, 8) {
 		s.Status = 403
 		s.Challenge = r.Choose("403-insufficient", "403-insufficient", "403-invalid-token", "none")
@@ -879,6 +879,18 @@ func runC15(c *vh.Case, spec c15Spec) {
 		w.challengeRM = "http://localhost:8931/prm/doc"
 	case "rm-script":
 		hdr.Add("WWW-Authenticate", `Bearer resource_metadata="javascript:alert(1)//meta.example/prm/doc"`)
+	case "decoy-quoted":
+		// a resource_metadata look-alike inside a quoted string is text, not a parameter
+		hdr.Add("WWW-Authenticate", `Bearer realm="a, resource_metadata=http://decoy.example/prm, b", resource_metadata="`+rmURL+`", scope="chal-a"`)
+		w.challengeRM = rmURL
+	case "decoy-only":
+		hdr.Add("WWW-Authenticate", `Bearer realm="x resource_metadata=http://decoy.example/prm", error_description="see resource_metadata=\"http://decoy.example/prm2\" for details"`)
+	case "decoy-escaped":
+		hdr.Add("WWW-Authenticate", `Bearer realm="quote \" then , resource_metadata=\"http://decoy.example/prm\"", resource_metadata="`+rmURL+`"`)
+		w.challengeRM = rmURL
+	case "rm-second-challenge":
+		hdr.Add("WWW-Authenticate", `Digest realm="d", nonce="n, resource_metadata=http://decoy.example/prm", Bearer resource_metadata="`+rmURL+`"`)
+		w.challengeRM = rmURL
 	case "malformed":
 		hdr.Add("WWW-Authenticate", `Bearer resource_metadata="`+rmURL)
 	case "scope-only":
